@@ -48,4 +48,89 @@ def judge(rec, props: tuple, case: dict, *, want=None, extra=None, key=None, sli
 
 
 def replay_case(rec, props: tuple, case: dict, extra=None):
+    if case.get("concurrent"):
+        for _ in range(5):
+            threaded_stage(rec, props, [case], extra, repeats=6)
+            if rec.violations:
+                return None
     return judge(rec, props, case, want=case.get("want"), extra=extra)
+
+
+# ------------------------------------------------------------------------------------------ concurrent re-judging
+class Keep:
+    """Remembers a few small cases of a shard for the concurrent stage."""
+
+    def __init__(self, limit: int = 10, max_chars: int = 30000) -> None:
+        self.cases: list[dict] = []
+        self.limit, self.max_chars = limit, max_chars
+
+    def add(self, case: dict) -> None:
+        if len(case["text"]) <= self.max_chars:
+            if len(self.cases) < self.limit:
+                self.cases.append({"text": case["text"], "truth": case["truth"]})
+            else:  # keep a spread over the shard, not only its first cases
+                import random
+
+                j = random.Random(len(case["text"])).randrange(self.limit * 3)
+                if j < self.limit:
+                    self.cases[j] = {"text": case["text"], "truth": case["truth"]}
+
+
+def threaded_stage(rec, props: tuple, cases: list[dict], extra=None, nthreads: int = 4, repeats: int = 2, first: dict | None = None) -> None:
+    """The property is stated for every chart, not for every chart parsed alone: the same cases are parsed again by
+    several threads at once (tiny switch interval; parsing and observing only — the comparison with the model
+    happens afterwards in the main thread), and each concurrent observation must still match the ground truth."""
+    import sys
+    import threading
+
+    if not cases:
+        return
+    results: list = []
+    errors: list = []
+
+    def worker(k: int) -> None:
+        try:
+            if first is not None:  # a case no thread (and nothing before in this process) has parsed yet, parsed by all at once
+                out = harness.parse(first["text"])
+                results.append((first, out.exc, harness.obs(out.chart) if out.ok else None))
+            for r in range(repeats):
+                for j in range(len(cases)):
+                    c = cases[(j + k * 3 + r) % len(cases)]
+                    out = harness.parse(c["text"])
+                    results.append((c, out.exc, harness.obs(out.chart) if out.ok else None))
+        except BaseException as e:  # noqa
+            errors.append(f"{type(e).__name__}: {e}")
+
+    old = sys.getswitchinterval()
+    sys.setswitchinterval(1e-6)
+    try:
+        ths = [threading.Thread(target=worker, args=(k,)) for k in range(nthreads)]
+        for t in ths:
+            t.start()
+        for t in ths:
+            t.join(300)
+    finally:
+        sys.setswitchinterval(old)
+    if any(t.is_alive() for t in ths):
+        rec.inconc("concurrent stage: parser threads still running after 300 s (watchdog)")
+        return
+    for e in errors[:1]:
+        # an exception escaping observe() under concurrency is itself a witness that a concurrent parse went wrong
+        rec.violation("concurrent-parse-broke-observation", f"concurrent stage ({nthreads} threads): observing a parsed chart raised {e}",
+                      {"text": cases[0]["text"], "truth": cases[0]["truth"], "concurrent": True}, "concurrent:observe-raised")
+    for c, exc, ob in results:
+        rec.mon("concurrent_parses")
+        rcase = {"text": c["text"], "truth": c["truth"], "concurrent": True}
+        if ob is None:
+            rec.ev()
+            rec.violation("well-formed-chart-rejected", f"parsed concurrently with {nthreads - 1} other threads, a well-formed chart was "
+                          f"rejected with {harness.exc_str(exc)}", rcase, f"concurrent:rejected:{type(exc).__name__}")
+            continue
+        d = model.compare(c["truth"], ob)
+        rec.ev(sum(d.evals.get(p, 0) for p in props))
+        mine = select(d, props, extra)
+        if mine:
+            p, kind, msg = mine[0]
+            rec.violation(kind, f"parsed concurrently with {nthreads - 1} other threads: {msg}", rcase, f"concurrent:{p}:{kind}")
+            return
+    rec.cls("concurrent_stage")
